@@ -150,23 +150,32 @@ func ZZ_C10_empty_state() {
 
 // unit change: statistics are rescaled by the factor
 func ZZ_C10_change_mapping_rescales() {
-	zzvBound("rescale", "factors {1/2, 2, 1000}; dyadic statistics; inner sketch empty (the bin redistribution is C17's subject)")
+	zzvBound("rescale", "factors {1/2, 1, 2, 1000}; dyadic statistics; inner sketch empty (the bin redistribution is C17's subject)")
 	inner := zzSketch("s", zzStub(1), 2, 2)
 	inner.zeroCount = store.ZZW("zero")
 	e := &DDSketchWithExactSummaryStatistics{DDSketch: inner, summaryStatistics: zzStats("s", inner.zeroCount, false)}
 	st := e.summaryStatistics
 	zzvAssume(st.Count() == inner.zeroCount)
 	c0, s0, mn0, mx0 := st.Count(), st.Sum(), st.Min(), st.Max()
-	f := []float64{0.5, 2, 1000}[zzvChoose("factor", 3)]
+	f := []float64{0.5, 1, 2, 1000}[zzvChoose("factor", 4)]
 	zzvCover("pre-state")
 	r := e.ChangeMapping(zzStub(2), store.SparseStoreConstructor, f)
 	rs := r.summaryStatistics
+	zzvAssert("result-has-its-own-statistics", rs != st)
 	zzvAssert("count-kept", rs.Count() == c0)
 	zzvAssert("sum-rescaled", rs.Sum() == f*s0)
 	zzvAssert("extremes-rescaled", zzvAnd(rs.Min() == zzvIteF64(c0 == 0, mn0, f*mn0), rs.Max() == zzvIteF64(c0 == 0, mx0, f*mx0)) || c0 == 0)
 	zzvAssert("zero-weight-kept", r.DDSketch.zeroCount == inner.zeroCount)
 	zzvAssert("source-statistics-unchanged", zzvAnd(st.Count() == c0, zzvAnd(st.Sum() == s0, zzvAnd(st.Min() == mn0, st.Max() == mx0))))
 	zzvAssert("requested-mapping-carried", r.IndexMapping.Equals(zzStub(2)))
+	// later operations on either sketch do not reach the other's statistics
+	if zzvChoose("mutate", 2) == 0 {
+		e.Clear()
+		zzvAssert("result-statistics-independent-of-source", zzvAnd(rs.Count() == c0, rs.Sum() == f*s0))
+	} else {
+		r.Clear()
+		zzvAssert("source-statistics-independent-of-result", zzvAnd(st.Count() == c0, st.Sum() == s0))
+	}
 }
 
 // the remaining operations of the property's list are the sketch-level steps of C14/C15/C16
